@@ -215,7 +215,7 @@ class Spec(object):
         if self.stopped: return
         self.pre_unsaved = set(x for x, o in self.cur.items() if o['pk'] is None)     # objects without a primary key when the op started
         self.learn_pks()
-        if k == 'flush': return
+        if k in ('flush', 'flushobj'): return        # no logical effect
         self.step_checked(op, res, rn)
 
     def step_checked(self, op, res, rn):
